@@ -66,7 +66,7 @@ vlib.standard_check({
                     "was fixed in /repo; the two designs of `c12 quirk` are replayed first on every run (corpus/C12/00-F21-…)",
                     "influence through memory *contents* (write port clock -> read data) is not a path: Node_MemPort::getOutputClockRelation ignores it by design",
                     "Node_External / vendor RAM primitives with their own checkValidInputClocks are not modelled (harness would report them as unsupported)",
-                    "the check runs after optimisation: structural crossings that post-processing removes before the check (constant-select mux, AND/OR with a constant, "
+                    "the check runs after optimisation: structural crossings that post-processing removes before the check (constant-select mux, mux whose data inputs are equal constants, AND/OR with a constant, "
                     "marker on a constant, unused logic, the order dependency between two read ports of one memory) are kept out of the generated designs; "
                     "hazards that involve only unbound clock slots (reachable only through the hlim API) are compared model-vs-code but not judged as property failures",
                     "Node_Signal2Clk/Signal2Rst inputs (clock/reset overrides) are exempt from the check in the code and in the model"],
